@@ -3,6 +3,7 @@
 package c01
 
 import (
+	"bytes"
 	"errors"
 	"fmt"
 	"os"
@@ -27,7 +28,7 @@ import (
 func init() {
 	driver.Register(&driver.Engine{
 		ID: "C01", Level: "exploration",
-		Rule: "each case is one program executed twice: by the production pipeline (ExecFileOptions: resolve, compile, VM) and by the reference tree evaluator (internal/refeval: own scope analysis, evaluation order, control flow, assignment forms, argument binder, recursion rule; shares only the value library), in fresh identical environments; compared: the sequence of host-visible events (t(tag, v) wrappers around sub-expressions, tick(), trace(), print, load) with canonical argument values, the final module globals, and the outcome (success, or failure at the same source position). Programs: (a) generated (internal/gen: defs, lambdas, closures, comprehensions, loops, break/continue/return, conditional and short-circuit expressions, every assignment form, every call form, load) x option vectors {set, while, recursion, top-level control, global reassign} x random layouts; (b) every chunk of the repository's own starlark/testdata corpus (also the self-validation of the reference evaluator). distinct = distinct program texts that executed >= 12 distinct opcodes and produced >= 1 host event",
+		Rule:        "each case is one program executed twice: by the production pipeline (ExecFileOptions: resolve, compile, VM; every fourth generated program through SourceProgramOptions, Write, CompiledProgram, Init) and by the reference tree evaluator (internal/refeval: own scope analysis, evaluation order, control flow, assignment forms, argument binder, recursion rule; shares only the value library), in fresh identical environments; compared: the sequence of host-visible events (t(tag, v) wrappers around sub-expressions, tick(), trace(), print, load) with canonical argument values, the final module globals, and the outcome (success, or failure at the same source position). Programs: (a) generated (internal/gen: defs, lambdas, closures, comprehensions, loops, break/continue/return, conditional and short-circuit expressions, every assignment form, every call form, load) x option vectors {set, while, recursion, top-level control, global reassign} x random layouts; (b) a fixed module whose functions (direct, mutual, closure, lambda and callback recursion, every parameter kind, loops) are then called by the host with starlark.Call on both sides, under all 32 option vectors, from source and from the compiled form; (c) every chunk of the repository's own starlark/testdata corpus (also the self-validation of the reference evaluator). distinct = distinct program texts that executed >= 12 distinct opcodes and produced >= 1 host event",
 		Assumptions: []string{"the shared value library (starlark.Binary/Unary/Compare/Iterate, built-in functions and methods) is outside this comparison: both sides call it", "cases in which either side exhausts its step/fuel budget are discarded and counted"},
 		Run:         run,
 		MinDistinct: 300,
@@ -91,19 +92,19 @@ func newThread(ev *events, loader func(*starlark.Thread, string) (starlark.Strin
 }
 
 type outcome struct {
-	ok      bool
-	msg     string
-	line    int32
-	col     int32
-	static  bool
-	fuel    bool
-	shared  bool
-	kind    string
+	ok           bool
+	msg          string
+	line         int32
+	col          int32
+	static       bool
+	fuel         bool
+	shared       bool
+	kind         string
 	spanS, spanE syntax.Position
-	globals string
-	events  []string
-	steps   uint64
-	panic   string
+	globals      string
+	events       []string
+	steps        uint64
+	panic        string
 }
 
 var reEntering = regexp.MustCompile(`^function \S+ (missing|accepts|got|takes)|called recursively$|^Starlark stack overflow$`)
@@ -130,7 +131,10 @@ func vmFailurePos(ee *starlark.EvalError, filename string) (int32, int32) {
 	return frames[i].Pos.Line, frames[i].Pos.Col
 }
 
-type opcodes struct{ seen map[uint8]bool }
+type opcodes struct {
+	seen     map[uint8]bool
+	compiled bool // run from the serialized form: SourceProgramOptions, Write, CompiledProgram, Init
+}
 
 func runVM(opts *syntax.FileOptions, filename, src string, extra starlark.StringDict, loader func(*starlark.Thread, string) (starlark.StringDict, error), ops *opcodes, maxSteps uint64, setup func(*starlark.Thread)) outcome {
 	ev := &events{}
@@ -146,7 +150,26 @@ func runVM(opts *syntax.FileOptions, filename, src string, extra starlark.String
 	th.SetLocal("c01ops", ops)
 	var g starlark.StringDict
 	var err error
-	p := sl.Safe(func() { g, err = starlark.ExecFileOptions(opts, th, filename, src, env) })
+	p := sl.Safe(func() {
+		if ops != nil && ops.compiled {
+			var prog *starlark.Program
+			if _, prog, err = starlark.SourceProgramOptions(opts, filename, src, func(name string) bool { _, ok := env[name]; return ok }); err != nil {
+				return
+			}
+			var buf bytes.Buffer
+			if err = prog.Write(&buf); err != nil {
+				err = fmt.Errorf("Program.Write: %v", err)
+				return
+			}
+			if prog, err = starlark.CompiledProgram(&buf); err != nil {
+				err = fmt.Errorf("CompiledProgram: %v", err)
+				return
+			}
+			g, err = prog.Init(th, env)
+			return
+		}
+		g, err = starlark.ExecFileOptions(opts, th, filename, src, env)
+	})
 	o := outcome{events: ev.list, steps: th.ExecutionSteps()}
 	if p != nil {
 		o.panic = fmt.Sprintf("%v @ %s", p.Value, p.TopFrame())
@@ -261,6 +284,7 @@ func run(c *driver.Ctx) {
 		}
 	}
 	armCorpus(c)
+	armHostCalls(c)
 	armGenerated(c)
 }
 
@@ -337,7 +361,9 @@ func armGenerated(c *driver.Ctx) {
 		p := gen.Generate(r, gen.Config{Opts: *opts, Trace: true, Host: true, Loads: true, Templates: true, MaxStmts: 6 + r.Intn(14)})
 		src := gen.Render(p.Stmts, r, p.Options(gen.RandomLayout(r)))
 		c.Note("key=C01 crash generated\nopts=%s\n%s", sl.OptionsString(opts), src)
-		ops := &opcodes{seen: map[uint8]bool{}}
+		// every fourth program runs from its serialized compiled form (the other way a host runs a program)
+		ops := &opcodes{seen: map[uint8]bool{}, compiled: i%4 == 3}
+		c.Count(map[bool]string{false: "route_source", true: "route_compiled"}[ops.compiled], 1)
 		vm := runVM(opts, "prog.star", src, nil, loaderM, ops, 300000, nil)
 		ref := runRef(opts, "prog.star", src, nil, loaderM, 6000000, nil)
 		if vm.static {
